@@ -1,6 +1,7 @@
 SPECIFICATION Spec
-CONSTANTS MaxEv = 40  NoSchedOn = FALSE
+CONSTANTS MaxEv = 40  NoSchedOn = FALSE  OwnDefault = TRUE
   Zones <- ZonesC  Vers <- VersT  NF <- NFc  ZoneOf <- ZoneOfC
 CONSTRAINT Bound
 INVARIANT SameOrNone
+INVARIANT DefaultUntouched
 CHECK_DEADLOCK FALSE
